@@ -16,12 +16,13 @@ func init() {
 			ID: "C10", Title: "The peer's view equals the Adj-RIB-Out under any timing", Level: "other",
 			Technique:   "dependence necessity (the withdrawal path must touch the pending-announcement queue), guarded-by lockset of the queue, lock hand-over analysis on go/cfg (writes to the peer keep queue order), critical-section integrity of the sender loop",
 			DesignRef:   "DESIGN.md §4 C10",
-			Decided:     "(1) UpdateSender.RemovePath reaches code that reads and prunes the pending-announcement queue under its lock: if the withdrawal never consulted the queue, `announce queued, withdrawn before the tick` would always end with the announcement sent last; (2) every access to the queue holds toSendMu (entry locksets of the underscore helpers are the intersection over their call sites); (3) every write to the peer from the update sender (queued announcements, withdrawals, End-of-RIB) happens with the send lock held, and the send lock is always acquired while the queue lock is still held, so the order of writes equals the order in which the queue was consulted; (4) in the sender loop an entry is removed from the queue in the same critical section in which it was read, so a prefix queued while the UPDATE is being written is kept for the next round; (5) AddPath appends to the entry of its attribute hash or creates it; a best-only replacement withdraws the old path before the new one is queued.",
+			Decided:     "(0) in the Adj-RIB-Out, the withdrawal of a replaced path is handed to the update sender before the replacing announcement on every path (never after, never deferred); (1) UpdateSender.RemovePath reaches code that reads and prunes the pending-announcement queue under its lock: if the withdrawal never consulted the queue, `announce queued, withdrawn before the tick` would always end with the announcement sent last; (2) every access to the queue holds toSendMu (entry locksets of the underscore helpers are the intersection over their call sites); (3) every write to the peer from the update sender (queued announcements, withdrawals, End-of-RIB) happens with the send lock held, and the send lock is always acquired while the queue lock is still held, so the order of writes equals the order in which the queue was consulted; (4) in the sender loop an entry is removed from the queue in the same critical section in which it was read, so a prefix queued while the UPDATE is being written is kept for the next round; (5) AddPath appends to the entry of its attribute hash or creates it; a best-only replacement withdraws the old path before the new one is queued.",
 			NotDecided:  "the interleaving semantics proper — equality of the replayed peer view with the Adj-RIB-Out over all schedules — is schedule-quantified and not decided by this family; only these structural preconditions are.",
 			TrustedBase: stdTrusted,
 		},
 		Run: runC10,
 		Controls: []Control{
+			{Name: "replaced-path-withdrawn-after-announcement", File: "routingtable/adjRIBOut/adj_rib_out.go", Old: "\t\toldPaths := a.rt.ReplacePath(pfx, p)\n\t\ta.removePathsFromClients(pfx, oldPaths)\n\t}\n\n\tfor _, client := range a.clientManager.Clients() {\n\t\terr := client.AddPath(pfx, p)\n\t\tif err != nil {\n\t\t\tlog.WithFields(log.Fields{\n\t\t\t\t\"sender\": \"AdjRIBOutAddPath\",\n\t\t\t}).WithError(err).Error(\"Could not send update to client\")\n\t\t}\n\t}\n\treturn nil\n", New: "\t\toldPaths := a.rt.ReplacePath(pfx, p)\n\t\tdefer a.removePathsFromClients(pfx, oldPaths)\n\t}\n\n\tfor _, client := range a.clientManager.Clients() {\n\t\terr := client.AddPath(pfx, p)\n\t\tif err != nil {\n\t\t\tlog.WithFields(log.Fields{\n\t\t\t\t\"sender\": \"AdjRIBOutAddPath\",\n\t\t\t}).WithError(err).Error(\"Could not send update to client\")\n\t\t}\n\t}\n\treturn nil\n", Expect: "withdraw-then-announce"},
 			{Name: "withdrawal-ignores-queue", File: "protocols/bgp/server/update_sender.go", Old: "\tu.toSendMu.Lock()\n\tu._dequeue(pfx, p)\n\tu.sendMu.Lock()\n\tu.toSendMu.Unlock()\n\n\terr := u.withdrawPrefix(u.fsm.con, pfx, p)", New: "\tu.toSendMu.Lock()\n\tu.sendMu.Lock()\n\tu.toSendMu.Unlock()\n\n\terr := u.withdrawPrefix(u.fsm.con, pfx, p)", Expect: "withdrawal-consults-queue"},
 			{Name: "delete-after-send", File: "protocols/bgp/server/update_sender.go", Old: "\t\t\tdelete(u.toSend, key)\n\t\t\tu.sendMu.Lock()\n\t\t\tu.toSendMu.Unlock()\n\n\t\t\tu.sendUpdates(pathAttrs, updatesPrefixes, pathID)\n\t\t\tu.sendMu.Unlock()\n\t\t\tu.toSendMu.Lock()", New: "\t\t\tu.sendMu.Lock()\n\t\t\tu.toSendMu.Unlock()\n\n\t\t\tu.sendUpdates(pathAttrs, updatesPrefixes, pathID)\n\t\t\tu.sendMu.Unlock()\n\t\t\tu.toSendMu.Lock()\n\t\t\tdelete(u.toSend, key)", Expect: "entry-taken-in-one-critical-section"},
 			{Name: "send-lock-after-queue-unlock", File: "protocols/bgp/server/update_sender.go", Old: "\tu._dequeue(pfx, p)\n\tu.sendMu.Lock()\n\tu.toSendMu.Unlock()\n", New: "\tu._dequeue(pfx, p)\n\tu.toSendMu.Unlock()\n\tu.sendMu.Lock()\n", Expect: "writes-keep-queue-order"},
@@ -98,6 +99,7 @@ func methodLocksets(p *core.Prog, rel, typ string) (map[*core.Fn]*core.Locksets,
 
 func runC10(c *core.Ctx) {
 	p := c.P
+	withdrawThenAnnounce(c)
 	const typ = "UpdateSender"
 	toSend := p.Field(srv, typ, "toSend")
 	if toSend == nil || p.Field(srv, typ, "toSendMu") == nil {
@@ -261,4 +263,83 @@ func runC10(c *core.Ctx) {
 		})
 		c.Check(appendOK && createOK, "withdrawal-consults-queue", f.Name()+" queues the prefix under its attribute hash", f.Decl.Pos(), "AddPath does not append the prefix to the queue entry of its attribute hash / create the entry")
 	}
+}
+
+// withdrawThenAnnounce: the update sender withdraws at once and announces with a delay; a withdrawal for a prefix also
+// takes the prefix out of the announcement queue.  So when the Adj-RIB-Out replaces a path (session without add-path:
+// implicit replacement), the withdrawal of the replaced path must reach the sender BEFORE the new announcement is
+// queued — the other order dequeues the new announcement (same attributes) or withdraws after the announcement went
+// out (timer in between), and the peer loses a route the Adj-RIB-Out still holds.
+// Rule: in no method of AdjRIBOut does a withdrawal to the clients follow, on some path, an announcement to the clients
+// (deferred withdrawals run last and count as following).
+func withdrawThenAnnounce(c *core.Ctx) {
+	const rule = "withdraw-then-announce"
+	p := c.P
+	const out = "routingtable/adjRIBOut"
+	c.Floor(rule, 1)
+	rm := p.Func(out + ".(*AdjRIBOut).removePathsFromClients")
+	n := 0
+	for _, f := range p.MethodsOf(out, "AdjRIBOut") {
+		if f.Decl.Body == nil {
+			continue
+		}
+		adds := clientCalls(f, "AddPath", "AddPathInitialDump")
+		if len(adds) == 0 {
+			continue
+		}
+		isWithdraw := func(nd ast.Node) bool {
+			return core.NodeHas(nd, func(x ast.Node) bool {
+				call, ok := x.(*ast.CallExpr)
+				if !ok {
+					return false
+				}
+				if rm != nil && core.Callee(f.Pkg, call) == rm.Obj {
+					return true
+				}
+				sel, ok := call.Fun.(*ast.SelectorExpr)
+				return ok && sel.Sel.Name == "RemovePath" && isClientIface(f, sel.X)
+			})
+		}
+		hasWithdraw := false
+		deferred := false
+		ast.Inspect(f.Decl.Body, func(nd ast.Node) bool {
+			if d, ok := nd.(*ast.DeferStmt); ok && isWithdraw(d.Call) {
+				deferred = true
+			}
+			if st, ok := nd.(ast.Stmt); ok && isWithdraw(st) {
+				hasWithdraw = true
+			}
+			return true
+		})
+		if !hasWithdraw {
+			continue
+		}
+		n++
+		c.Analysed(f)
+		g := p.CFG(f)
+		isAdd := func(nd ast.Node) bool {
+			return core.NodeHas(nd, func(x ast.Node) bool {
+				for _, a := range adds {
+					if x == ast.Node(a) {
+						return true
+					}
+				}
+				return false
+			})
+		}
+		isPlainWithdraw := func(nd ast.Node) bool {
+			if _, isDefer := nd.(*ast.DeferStmt); isDefer {
+				return false
+			}
+			return isWithdraw(nd)
+		}
+		late := core.PathAvoidingFrom(g, isAdd, func(ast.Node) bool { return false }, isPlainWithdraw)
+		pos := f.Decl.Pos()
+		if len(late) > 0 {
+			pos = late[0].Pos()
+		}
+		c.Check(len(late) == 0 && !deferred, rule, f.Name()+" withdraws what it replaces before it announces", pos,
+			"a withdrawal is handed to the clients after (or deferred past) the announcement of the replacing path: the update sender writes withdrawals at once and a withdrawal dequeues a pending announcement for the prefix, so the peer ends up without a route the Adj-RIB-Out holds")
+	}
+	c.Check(n >= 1, rule, "AdjRIBOut methods that withdraw and announce found", token.NoPos, "none found")
 }
